@@ -527,7 +527,7 @@ def __read_and_parse_events(input_file, *args: callable) -> EventLibrary:
     while line != '' and line != '#':
         list_of_data_str = re.split(r'(\s+)', line)
         list_of_data_str = [d for d in list_of_data_str if d != ' ']
-        data = np.zeros(len(list_of_data_str) - 1, dtype=np.int32)
+        data = np.zeros(len(list_of_data_str) - 1, dtype=np.int64)
         event_id = int(list_of_data_str[0])
         for i in range(1, len(list_of_data_str)):
             if i > len(args):
